@@ -48,7 +48,7 @@ def _env(opts):
     env = opts.get("_env")
     if env is None:
         from liquid2 import DictLoader, Environment
-        env = opts["_env"] = Environment(loader=DictLoader({}))
+        env = opts["_env"] = Environment(loader=DictLoader({"p": "{{ v }}"}))
     return env
 
 
@@ -95,7 +95,13 @@ def judge(rec, opts):
         out = []
         shape = ("int" if rec["isint"] else "float") + (":exp" if "e" in text.lower() else "") + (":big" if len(rec["digits"].lstrip("0")) > 15 else "")
         for site, src in (("output", "{{ %s }}" % text), ("assign-json", "{%% assign n = %s %%}{{ n | json }}" % text),
-                          ("filter-arg", "{{ 0 | plus: %s }}" % text), ("compare", "{%% if x == %s %%}HIT{%% endif %%}" % text)):
+                          ("filter-arg", "{{ 0 | plus: %s }}" % text), ("compare", "{%% if x == %s %%}HIT{%% endif %%}" % text),
+                          # optional slots: a number that is written is there, also when it is zero
+                          ("ternary-else", "{{ 1 if false else %s }}" % text), ("include-with", "{%% include 'p' with %s as v %%}" % text),
+                          ("render-with", "{%% render 'p' with %s as v %%}" % text),
+                          ("loop-limit", "{%% for i in (1..3) limit: %s %%}x{%% endfor %%}" % text)):
+            if site == "loop-limit" and (not rec["isint"] or rec["neg"]):
+                continue
             try:
                 got = env.from_string(src).render(x=int(exact) if rec["isint"] else float(exact))
             except LiquidError as e:
@@ -106,6 +112,8 @@ def judge(rec, opts):
                 continue
             if site == "compare":
                 ok = got == "HIT"
+            elif site == "loop-limit":
+                ok = got == "x" * min(int(exact), 3)
             elif rec["isint"]:
                 # the number written is an integer: it prints as exactly that integer
                 ok = got == str(int(exact))
